@@ -263,6 +263,11 @@ impl Evaluator {
                     );
                 }
             });
+            #[cfg(feature = "verif")]
+            crate::verif::emit(|| crate::verif::Event::JobEnd {
+                eval: verif_id,
+                nth,
+            });
         });
     }
 }
